@@ -7,9 +7,12 @@ package main
 // case   := P <A> <I> <MR> <ME> T <n> <fieldidx>*n CF <m> <fieldidx>*m <op>*
 // op     := rec <k> <val>*n | msg <k> <val>*n | adv <d> | scan <nf> <k>*nf | exp
 // obs    := (<res> <snapshot> ;)*            (PANIC ends the observation)
-// res    := r ok|err | a | s <err T/F> cb <n> <k>*n pk <m> <k>*m | e <ns>
-// snap   := F <nf> {<k> <ready> <retries> <filled> <ipv4> <val>*n}*nf Q <nq> {<k> <active> <inactive>}*nq H ok|bad
-// Times are nanosecond offsets from the virtual epoch; flows and queue entries are sorted by key.
+// res    := r ok|err | a | s <err T/F> cb <n> <k>*n pk <m> <k>*m ix <n> <index>*n | e <ns>
+// snap   := F <nf> {<k> <ready> <retries> <filled> <ipv4> <val>*n}*nf Q <nq> {<k> <active> <inactive>}*nq H ok|bad A <nq> {<k> <index>}*nq
+// Times are nanosecond offsets from the virtual epoch; flows and queue entries (Q) are sorted by key.
+// A is the queue's backing slice in ARRAY ORDER: flow key and index field of every slot; it is
+// compared with the array of the exact heap model (coq/Model/Heap.v) after every operation.
+// ix: the index field of the popped (detached) item as seen inside each callback.
 
 import (
 	"encoding/hex"
@@ -221,6 +224,11 @@ func aggSnapshot(ap *intermediate.AggregationProcess, c *aggCase, locked bool) (
 	} else {
 		sb.WriteString(" H bad")
 	}
+	// the slice as it is: position by position
+	fmt.Fprintf(&sb, " A %d", len(sn.Queue))
+	for _, s := range sn.Queue {
+		fmt.Fprintf(&sb, " %d %d", aggKeyID(s.Key), s.Index)
+	}
 	return sb.String(), sn
 }
 
@@ -318,10 +326,18 @@ func aggRunCase(t []string) string {
 				for n := atoi(next()); n > 0; n-- {
 					fails[atoi(next())] = true
 				}
-				var cbs []int
+				var cbs, ixs []int
 				err := ap.ForAllExpiredFlowRecordsDo(func(key intermediate.FlowKey, rec *intermediate.AggregationFlowRecord) error {
 					k := aggKeyID(key)
 					cbs = append(cbs, k)
+					// the item heap.Pop just returned for this flow (the lock is held here)
+					ix := -9
+					for _, f := range ap.VerifSnapshotLocked().Flows {
+						if f.Key == key {
+							ix = f.ItemIndex
+						}
+					}
+					ixs = append(ixs, ix)
 					if fails[k] {
 						return fmt.Errorf("export failed for key %d", k)
 					}
@@ -337,6 +353,10 @@ func aggRunCase(t []string) string {
 				fmt.Fprintf(&sb, " pk %d", len(picks))
 				for _, k := range picks {
 					fmt.Fprintf(&sb, " %d", k)
+				}
+				fmt.Fprintf(&sb, " ix %d", len(ixs))
+				for _, x := range ixs {
+					fmt.Fprintf(&sb, " %d", x)
 				}
 				return sb.String(), false
 			}
